@@ -988,3 +988,41 @@ def dynamic_set_model(ctx, rule):
                  input="class T(Parameterized): n = Number(0, allow_refs=True); t = T(); t.n = s.twice  (a @depends method of s) -> AttributeError, yet t.n follows s")
     else:
         ctx.ok(rule, f, f.node, "Dynamic set model, %d cases: generator state goes to the stored value when it is a callable, never to a reference" % n)
+
+
+def invalidation_before_consumers(ctx, rule):
+    """Watchers that only invalidate a cache (rx `_invalidate_*`) must run before every internally installed watcher that
+    may read that cache (the sync of references, depends(watch=True) callers): within one batch the queue keeps arrival
+    order among equal precedences, so a consumer queued by an EARLIER event of the batch would run before the invalidation
+    queued by a later one and read the stale result.  Decided on the precedence constants of the internal
+    `<owner>.param._watch(...)` registrations: max(invalidators) < min(consumers)."""
+    def const(e):
+        if isinstance(e, ast.Constant) and isinstance(e.value, (int, float)):
+            return e.value
+        if isinstance(e, ast.UnaryOp) and isinstance(e.op, ast.USub) and isinstance(e.operand, ast.Constant):
+            return -e.operand.value
+        return None
+    inval, cons = [], []
+    for g in ctx.repo.funcs.values():
+        for c in ast.walk(g.node):
+            if not (isinstance(c, ast.Call) and isinstance(c.func, ast.Attribute) and c.func.attr == "_watch" and norm(c.func.value).endswith(".param") and c.args):
+                continue
+            prec = next((k.value for k in c.keywords if k.arg == "precedence"), c.args[5] if len(c.args) > 5 else None)
+            pv = const(prec) if prec is not None else -1          # the default of Parameters._watch
+            cb = norm(c.args[0])
+            if pv is None:
+                if cb.rsplit(".", 1)[-1].startswith("_invalidate"):
+                    from engine.loader import AnalysisError
+                    raise AnalysisError("%s: the precedence of the invalidation watcher registered in %s is not a constant" % (rule, g.qualname))
+                continue          # a precedence chosen by the caller (user-facing registration)
+            (inval if cb.rsplit(".", 1)[-1].startswith("_invalidate") else cons).append((pv, g, c, cb))
+    ctx.require(len(inval) >= 2 and len(cons) >= 2, "internal watcher registrations not found (%d invalidators, %d consumers)" % (len(inval), len(cons)))
+    lo_cons = min(cons, key=lambda x: x[0])
+    for pv, g, c, cb in inval:
+        if pv < lo_cons[0]:
+            ctx.ok(rule, g, c, "%s runs at precedence %s, before every internal consumer (lowest: %s)" % (cb, pv, lo_cons[0]))
+        else:
+            ctx.fail(rule, g, c, "the cache invalidation `%s` is registered with precedence %s, not lower than the internal consumer `%s` (%s, precedence %s): in a batch that changes two "
+                                 "sources, the consumer queued by the first event runs before the invalidation queued by the second and mirrors the stale result" % (
+                                     cb, pv, lo_cons[3], lo_cons[1].qualname.rsplit(".", 1)[-1], lo_cons[0]), key="%s::invalidation-not-first::%s" % (g.qualname, cb.rsplit(".", 1)[-1]),
+                     input="p = P(x=s.param.a, y=rx(s.param.b) + 100); s.param.update(a=2, b=2) -> p.y stays 101")
